@@ -1,6 +1,6 @@
 # Quantum Evolving Ansatz Variational Solver (QUEASARS)
 # Copyright 2024 DLR - Deutsches Zentrum für Luft- und Raumfahrt e.V.
-from typing import Any, Iterable, Optional, TypeVar, Union
+from typing import Any, Iterable, Optional
 
 from qiskit.primitives import (
     SamplerPubLike,
@@ -12,13 +12,12 @@ from qiskit.primitives import (
 )
 from qiskit.primitives.base import BaseSamplerV2, BaseEstimatorV2
 from qiskit.primitives.containers.estimator_pub import EstimatorPub
+from qiskit.primitives.containers.sampler_pub import SamplerPub
 
 from qiskit.transpiler import PassManager
 
 from dask.utils import SerializableLock
 
-
-T = TypeVar("T")
 
 
 def _pass_manager_lock(pass_manager: PassManager) -> SerializableLock:
@@ -55,18 +54,20 @@ class TranspilingSamplerV2(BaseSamplerV2):
     def run(
         self, pubs: Iterable[SamplerPubLike], *, shots: Optional[int] = None
     ) -> BasePrimitiveJob[PrimitiveResult[SamplerPubResult], Any]:
-        def _ensure_tuple(value: Union[T, tuple[T]]) -> tuple[T]:
-            if isinstance(value, tuple):
-                return value
-            return (value,)
-
-        def _transpile(circuit):
+        def apply_pass_manager(pub: SamplerPubLike) -> SamplerPubLike:
+            # A pub may be a circuit, a tuple or an already coerced SamplerPub (as handed on by other primitive wrappers)
+            coerced_pub: SamplerPub = SamplerPub.coerce(pub, shots)
             # The pass manager must not be run by several threads at once
             with self._pass_manager_lock:
-                return self._pass_manager.run(circuits=circuit)
+                transpiled_circuit = self._pass_manager.run(coerced_pub.circuit)
+            return SamplerPub(
+                circuit=transpiled_circuit,
+                parameter_values=coerced_pub.parameter_values,
+                shots=coerced_pub.shots,
+                validate=False,
+            )
 
-        pubs = (_ensure_tuple(pub) for pub in pubs)
-        pubs = ((_transpile(pub[0]), *pub[1:]) for pub in pubs)
+        pubs = (apply_pass_manager(pub) for pub in pubs)
         return self._sampler.run(pubs, shots=shots)
 
 
